@@ -31,6 +31,23 @@ theorem keepers_hold_no_memory : Facts.keeperMemFields =
     [("x/evm/keeper::Keeper.eip155ChainID", "ptr:math/big.Int"),      -- re-derived from the header in every BeginBlock
      ("x/evm/keeper::Keeper.precompiles", "map")] := by decide
 
+/-- the same for everything else that is built once per process and sits on the transaction path: ante / post
+    decorators and precompiles hold no container, lock or private structure — the authz limiter's list of barred type
+    URLs is filled at construction and never written (`handlers_never_write_their_fields`), the wrapped-coin precompile
+    embeds the ERC20 precompile -/
+theorem handlers_hold_no_memory : Facts.handlerMemFields =
+    [("app/ante/cosmos::AuthzLimiterDecorator.disabledMsgTypes", "slice"),
+     ("precompiles/werc20::Precompile.Precompile", "ptr:precompiles/erc20.Precompile")] := by decide
+
+/-- no method of a decorator or precompile assigns to a field of its receiver -/
+theorem handlers_never_write_their_fields : Facts.handlerFieldWriters = [] := by decide
+
+/-- package-level variables are written by `init` and by the encoding set-up that construction runs, by nothing else:
+    no package-level cache, counter or memo on the transaction path -/
+theorem package_vars_written_at_construction_only : Facts.packageVarWriters =
+    [("ethereum/eip712/encoding.go::aminoCodec", "SetEncodingConfig"),
+     ("ethereum/eip712/encoding.go::protoCodec", "SetEncodingConfig")] := by decide
+
 /-- extensions are never registered after construction: the only function that calls `AddEVMExtensions` is the
     ERC20 registration helper, and nothing calls that -/
 theorem no_dynamic_extensions :
